@@ -175,7 +175,8 @@ class Parser:
                 self.accept(";")
                 stmts.append(("break", ln))
             elif self.kind() == "id" and p == "continue":
-                self.fail("continue")
+                if not getattr(self, "allow_continue", False): self.fail("continue")
+                self.next(); self.accept(";"); stmts.append(("continue", ln))      # phase 4h (app mode only, tools/rs2lean_app.py)
             elif self.kind() == "id" and p == "loop":
                 self.next(); b = self.block(); stmts.append(("loop", b, ln))
             elif self.kind() == "id" and p == "while":
@@ -341,6 +342,8 @@ class Parser:
                 return ("if", c, a, b)
             if p in ("true", "false"): self.next(); return ("bool", p == "true")
             if p == "match": return self.match_expr()
+            if p == "unsafe" and self.peek(1) == "{" and getattr(self, "allow_continue", False):      # phase 4h (app mode only): a skeleton table must give it a reading
+                self.next(); return ("unsafeexpr", self.block())
             if p in ("loop", "while", "for", "unsafe", "move", "return", "break"): self.fail(f"`{p}` in expression position")
             segs = [self.ident()]
             while self.accept("::"): segs.append(self.ident())
@@ -500,7 +503,7 @@ def find_impl(src, impl, rel):
     return j, end, impl.split()[-1], aliases
 
 
-def parse_fn(repo, rel, name, impl=None):
+def parse_fn(repo, rel, name, impl=None, allow_continue=False):
     src = strip_comments(open(os.path.join(repo, rel)).read())
     lo, hi, selfty, aliases = 0, None, None, {}
     if impl is not None:
@@ -519,7 +522,7 @@ def parse_fn(repo, rel, name, impl=None):
     off, line = find_fn(src, name, rel if impl is None else f"{rel} (impl {impl})", lo, hi)
     j = src.index("{", off); end = brace_block(src, j, f"fn {name} in {rel}")
     toks = tokenize(src[off:end], line)
-    p = Parser(toks, name)
+    p = Parser(toks, name); p.allow_continue = allow_continue
     fn = p.fn_item()
     end_line = toks[p.i - 1][2]
     norm = " ".join(t[1] for t in toks[:p.i])
@@ -3239,7 +3242,8 @@ def gen_all(repo):
     tr = Translator(repo)     # shared: later files refer to the signatures of functions translated for earlier ones
     for name, spec in FILES:
         try:
-            if spec.get("handler_mode"):      # phase 4e: generic butterfly network + NTTTables wrappers (tools/rs2lean_dwt.py)
+            if spec.get("app_mode"): import rs2lean_app; res[name] = rs2lean_app.generate(sys.modules[__name__], tr, spec)      # phase 4h: application layer (tools/rs2lean_app.py)
+            elif spec.get("handler_mode"):      # phase 4e: generic butterfly network + NTTTables wrappers (tools/rs2lean_dwt.py)
                 import rs2lean_dwt
                 res[name] = rs2lean_dwt.generate(sys.modules[__name__], tr, spec)
             elif spec.get("rng_mode"):        # phase 4j: BlakeRNG + samplers (tools/rs2lean_rng.py)
@@ -3571,6 +3575,9 @@ FILES += [
         {"file": UT, "fn": "inverse_ntt_negacyclic_harvey", "impl": "NTTTables", "model": "intt"},
     ]}),
 ]
+# Gen/AppPrelude.lean, AppFns.lean, AppBatchFns.lean, AppLweFns.lean (phase 4h, app mode - tools/rs2lean_app.py, tables in tools/rs2lean_app_table.py)
+import rs2lean_app_table
+FILES += rs2lean_app_table.FILES
 
 
 # ------------------------------------------------------------------------------------------------------------------------------------
@@ -3768,8 +3775,7 @@ TABLE_EVALCT += [
      "panic_escape": True},
 ]
 for _n, _sp in FILES:
-    if _n == "EvalFns.lean" and "Heathcliff.Model.Scheme" not in _sp["imports"]: _sp["imports"] = _sp["imports"] + ["Heathcliff.Model.Scheme"]
-# ------------------------------------------------------------------------------------------------------------------------------------
+    if _n == "EvalFns.lean" and "Heathcliff.Model.Scheme" not in _sp["imports"]: _sp["imports"] = _sp["imports"] + ["Heathcliff.Model.Scheme"]# ------------------------------------------------------------------------------------------------------------------------------------
 
 # ------------------------------------------------------------------------------------------------------------------------------------
 # Phase 4j (worker R): the seeded generator and the samplers (tools/rs2lean_rng.py, "rng mode"; notes/work7-R.md)
